@@ -41,9 +41,9 @@ def _common_evidence(prop, level, agg, det, tier, seed, wall, t_main, n_new, rep
         "samples": agg.samples[:2] if agg.samples else [{"note": "no clean sample trace captured"}],
         "exhaustive": False,
         "distinct_traces": len(agg.trace_digests),
-        "seeds": agg.evaluations,
+        "seeds": len(agg.digests) + agg.extra.get("enum_histories", 0),
         "runs_per_hour": round(agg.evaluations / hours),
-        "seeds_per_hour": round(agg.evaluations / hours),
+        "seeds_per_hour": round((len(agg.digests) + agg.extra.get("enum_histories", 0)) / hours),
         "scheduler_steps": agg.steps,
         "ops": agg.ops,
         "simulated_seconds": round(agg.sim_seconds, 3),
